@@ -143,3 +143,48 @@ func TestDefectD7_FloatLESwallowsDiagnostic(t *testing.T) {
 		t.Errorf("lt dbg=%v le dbg=%v: both must be non-nil", dbgLT, dbgLE)
 	}
 }
+
+// D8 was found later by the machinery (C07, hostile Stringer catalogue) after a hint from a
+// mutation sub-agent; it fails on every commit before the D8 fix.
+type selfPanic struct{}
+
+func (s selfPanic) String() string { panic(s) }
+
+func TestDefectD8_PanicWhileFormattingRecoveredPanic(t *testing.T) {
+	obj := map[string]interface{}{"x": selfPanic{}}
+	for name, f := range map[string]func(){
+		"Process": func() {
+			ev, err := parser.NewEvaluator(`x eq "a"`)
+			if err != nil {
+				t.Fatal(err)
+			}
+			v, err := ev.Process(obj)
+			if v || err == nil {
+				t.Errorf("Process: got (%v, %v), want (false, error)", v, err)
+			}
+		},
+		"rules.Evaluate":  func() { rules.Evaluate(`x eq "a"`, obj) },
+		"parser.Evaluate": func() { parser.Evaluate(`x eq "a"`, obj) },
+	} {
+		func() {
+			defer func() {
+				if r := recover(); r != nil {
+					t.Errorf("%s: a panic escaped: %T", name, r)
+				}
+			}()
+			f()
+		}()
+	}
+}
+
+func TestDefectD8_DebugErrorTextPanics(t *testing.T) {
+	defer func() {
+		if r := recover(); r != nil {
+			t.Errorf("LastDebugErr().Error() panicked: %T", r)
+		}
+	}()
+	_, _, dbg := run(t, `x eq 1`, o{"x": selfPanic{}})
+	if dbg == nil || dbg.Error() == "" {
+		t.Errorf("no diagnostic text")
+	}
+}
